@@ -1,7 +1,602 @@
 package checks
 
-import "verif/harness/mon"
+// C20 part (c): end-to-end page walks through the GraphQL handler on a repository
+// fed from two replicas. Every page is its own HTTP request. Oracle: a walk
+// (forwards with first/after, backwards with last/before) yields every element
+// exactly once in list order, where the list is what an unpaginated request of
+// the same field returns; for allBugs / allIdentities the set of ids must also be
+// the cache's AllIds.
 
-// c20EndToEnd walks the paginated GraphQL fields of a served repository. Filled in once the
-// GraphQL harness (shared with C17) exists.
-var c20EndToEnd = func(r *mon.Run) {}
+import (
+	"fmt"
+	"reflect"
+	"sort"
+	"strconv"
+	"strings"
+
+	"github.com/MichaelMure/git-bug/entities/bug"
+	"github.com/MichaelMure/git-bug/entity"
+
+	"verif/harness/mon"
+	"verif/harness/world"
+)
+
+// e2eField describes one paginated field and how to reach it.
+type e2eField struct {
+	Key     string // "allBugs", "bug.comments" (violation key component)
+	Schema  string // "Repository.allBugs": owner type + field in the served schema
+	Field   string
+	BugId   string // non-empty: reached through repository.bug(prefix)
+	NodeKey string // field identifying a node: id | name
+}
+
+func (f e2eField) document(args string) string {
+	if args != "" {
+		args = "(" + args + ")"
+	}
+	con := fmt.Sprintf(`%s%s { totalCount pageInfo { hasNextPage hasPreviousPage startCursor endCursor } edges { cursor node { %s } } nodes { %s } }`,
+		f.Field, args, f.NodeKey, f.NodeKey)
+	if f.BugId != "" {
+		return fmt.Sprintf(`query { repository { bug(prefix: %q) { %s } } }`, f.BugId, con)
+	}
+	return fmt.Sprintf(`query { repository { %s } }`, con)
+}
+
+func (f e2eField) path() []string {
+	if f.BugId != "" {
+		return []string{"repository", "bug", f.Field}
+	}
+	return []string{"repository", f.Field}
+}
+
+type e2ePage struct {
+	Nodes, EdgeNodes, Cursors []string
+	HasNext, HasPrev          bool
+	Start, End                string
+	Total                     int
+}
+
+// e2eFetch sends one request and decodes the connection.
+func e2eFetch(h *GQLHarness, f e2eField, args string) (*e2ePage, string) {
+	resp := h.Post(false, f.document(args), nil)
+	if resp.HasErrors() {
+		return nil, "request failed: " + resp.ErrorText()
+	}
+	con := jget(resp.Data, f.path()...)
+	if con == nil {
+		return nil, "no connection object in the response: " + truncateStr(resp.Raw, 300)
+	}
+	p := &e2ePage{}
+	p.Nodes = jstrs(jlist(con, "nodes"), f.NodeKey)
+	for _, e := range jlist(con, "edges") {
+		p.Cursors = append(p.Cursors, jstr(e, "cursor"))
+		p.EdgeNodes = append(p.EdgeNodes, jstr(e, "node", f.NodeKey))
+	}
+	p.HasNext, _ = jbool(con, "pageInfo", "hasNextPage")
+	p.HasPrev, _ = jbool(con, "pageInfo", "hasPreviousPage")
+	p.Start = jstr(con, "pageInfo", "startCursor")
+	p.End = jstr(con, "pageInfo", "endCursor")
+	p.Total, _ = jint(con, "totalCount")
+	return p, ""
+}
+
+func truncateStr(s string, n int) string {
+	if len(s) <= n {
+		return s
+	}
+	return s[:n] + "…"
+}
+
+func shortIds(l []string) []string {
+	out := make([]string, len(l))
+	for i, s := range l {
+		if len(s) > 7 {
+			s = s[:7]
+		}
+		out[i] = s
+	}
+	return out
+}
+
+func sameStrings(a, b []string) bool {
+	if len(a) != len(b) {
+		return false
+	}
+	for i := range a {
+		if a[i] != b[i] {
+			return false
+		}
+	}
+	return true
+}
+
+func sortedCopy(l []string) []string {
+	out := append([]string{}, l...)
+	sort.Strings(out)
+	return out
+}
+
+// e2eWalk pages through the field. Returns the concatenated walk, the number of pages,
+// a per-page defect ("aspect|description") if one was seen, and a fatal message.
+func e2eWalk(h *GQLHarness, f e2eField, size int, forward bool, refLen int) (got []string, pages int, pageDefect string, fatal string) {
+	cursor := ""
+	for step := 0; step <= 2*refLen+4; step++ {
+		var args string
+		if forward {
+			args = "first: " + strconv.Itoa(size)
+			if cursor != "" {
+				args += fmt.Sprintf(", after: %q", cursor)
+			}
+		} else {
+			args = "last: " + strconv.Itoa(size)
+			if cursor != "" {
+				args += fmt.Sprintf(", before: %q", cursor)
+			}
+		}
+		p, msg := e2eFetch(h, f, args)
+		if msg != "" {
+			return got, pages, pageDefect, fmt.Sprintf("page %d (%s): %s", step, args, msg)
+		}
+		pages++
+		if pageDefect == "" {
+			switch {
+			case !sameStrings(p.Nodes, p.EdgeNodes):
+				pageDefect = fmt.Sprintf("nodes-vs-edges|page (%s): nodes %v but edge nodes %v", args, shortIds(p.Nodes), shortIds(p.EdgeNodes))
+			case len(p.Nodes) > size:
+				pageDefect = fmt.Sprintf("window|page (%s) returned %d elements", args, len(p.Nodes))
+			case p.Total != refLen:
+				pageDefect = fmt.Sprintf("totalCount|page (%s): totalCount %d, the unpaginated list has %d elements", args, p.Total, refLen)
+			case len(p.Cursors) > 0 && (p.Start != p.Cursors[0] || p.End != p.Cursors[len(p.Cursors)-1]):
+				pageDefect = fmt.Sprintf("cursors|page (%s): start/end cursor %q/%q, first/last edge %q/%q", args, p.Start, p.End, p.Cursors[0], p.Cursors[len(p.Cursors)-1])
+			}
+		}
+		if forward {
+			got = append(got, p.Nodes...)
+		} else {
+			got = append(append([]string{}, p.Nodes...), got...)
+		}
+		more, next := p.HasNext, p.End
+		if !forward {
+			more, next = p.HasPrev, p.Start
+		}
+		if !more {
+			return got, pages, pageDefect, ""
+		}
+		if len(p.Nodes) == 0 {
+			return got, pages, pageDefect, fmt.Sprintf("page %d (%s): flag says more but the page is empty", step, args)
+		}
+		cursor = next
+	}
+	return got, pages, pageDefect, fmt.Sprintf("walk did not terminate within %d pages", 2*refLen+5)
+}
+
+// describeWalkDiff says what is wrong with a walk relative to the reference list.
+func describeWalkDiff(got, ref []string) string {
+	count := map[string]int{}
+	for _, g := range got {
+		count[g]++
+	}
+	var dup, missing, foreign []string
+	inRef := map[string]bool{}
+	for _, x := range ref {
+		inRef[x] = true
+		if count[x] == 0 {
+			missing = append(missing, x)
+		}
+	}
+	for x, n := range count {
+		if n > 1 {
+			dup = append(dup, x)
+		}
+		if !inRef[x] {
+			foreign = append(foreign, x)
+		}
+	}
+	sort.Strings(dup)
+	sort.Strings(foreign)
+	var parts []string
+	if len(dup) > 0 {
+		parts = append(parts, fmt.Sprintf("visited more than once: %v", shortIds(dup)))
+	}
+	if len(missing) > 0 {
+		parts = append(parts, fmt.Sprintf("never visited: %v", shortIds(missing)))
+	}
+	if len(foreign) > 0 {
+		parts = append(parts, fmt.Sprintf("not in the list: %v", shortIds(foreign)))
+	}
+	if len(parts) == 0 {
+		parts = append(parts, "every element once, but in another order")
+	}
+	return strings.Join(parts, "; ")
+}
+
+// c20BuildWorld builds two replicas that exchanged everything; r0 is the one served.
+func c20BuildWorld(r *mon.Run) (w *world.World, big entity.Id, small entity.Id, err error) {
+	w, err = world.New(2)
+	if err != nil {
+		return nil, "", "", err
+	}
+	fail := func(e error) (*world.World, entity.Id, entity.Id, error) {
+		w.Close()
+		return nil, "", "", e
+	}
+	r0, r1 := w.Replicas[0], w.Replicas[1]
+	nAuthors := r.Pick(3, 5)
+	for i := 0; i < nAuthors; i++ {
+		if _, err := r0.NewAuthor(fmt.Sprintf("r0-author-%d", i)); err != nil {
+			return fail(err)
+		}
+		if _, err := r1.NewAuthor(fmt.Sprintf("r1-author-%d", i)); err != nil {
+			return fail(err)
+		}
+	}
+	rng := mon.Rng(r.Seed, "c20-e2e", 0)
+	// Pairs of bugs created concurrently on the two replicas: the k-th bug of either replica carries
+	// create-Lamport time k, and the first pairs also share the unix timestamp (two users filing a
+	// bug during the same second).
+	tiePairs := r.Pick(3, 4)
+	for k := 0; k < tiePairs; k++ {
+		unix := w.Now()
+		for ri, rep := range []*world.Replica{r0, r1} {
+			b, _, err := bug.Create(rep.Authors[k%nAuthors], unix, fmt.Sprintf("tie %d on r%d", k, ri), "same second", nil, nil)
+			if err != nil {
+				return fail(err)
+			}
+			if err := b.Commit(rep.Repo); err != nil {
+				return fail(err)
+			}
+		}
+	}
+	nBugs := r.Pick(4, 9)
+	var r0Bugs, r1Bugs []entity.Id
+	for k := 0; k < nBugs; k++ {
+		b0, err := w.NewBug(r0, k, fmt.Sprintf("r0 bug %d", k), "first message")
+		if err != nil {
+			return fail(err)
+		}
+		r0Bugs = append(r0Bugs, b0.Id())
+		b1, err := w.NewBug(r1, k, fmt.Sprintf("r1 bug %d", k), "first message")
+		if err != nil {
+			return fail(err)
+		}
+		r1Bugs = append(r1Bugs, b1.Id())
+	}
+	labels := []string{"alpha", "beta", "gamma", "delta", "epsilon", "zeta", "eta", "theta", "iota"}
+	// r0 works on its bugs
+	big = r0Bugs[0]
+	small = r0Bugs[len(r0Bugs)-1]
+	nComments := r.Pick(7, 15)
+	var specs []world.OpSpec
+	for i := 0; i < nComments; i++ {
+		specs = append(specs, world.OpSpec{Kind: "comment", Text: fmt.Sprintf("r0 comment %d", i), Author: i})
+		if i%3 == 1 {
+			specs = append(specs, world.OpSpec{Kind: "labels", Add: []string{labels[(i/3)%len(labels)]}, Author: i + 1})
+		}
+		if i%4 == 2 {
+			specs = append(specs, world.OpSpec{Kind: "title", Text: fmt.Sprintf("big bug, title %d", i), Author: i})
+		}
+		// several commits
+		if i%3 == 2 {
+			if err := w.Edit(r0, big, specs); err != nil {
+				return fail(err)
+			}
+			specs = nil
+		}
+	}
+	specs = append(specs, world.OpSpec{Kind: "close"}, world.OpSpec{Kind: "edit", Text: "edited last comment"})
+	if err := w.Edit(r0, big, specs); err != nil {
+		return fail(err)
+	}
+	for k, id := range r0Bugs[1 : len(r0Bugs)-1] {
+		if err := w.Edit(r0, id, []world.OpSpec{
+			{Kind: "labels", Add: []string{labels[(k+3)%len(labels)], labels[(k+5)%len(labels)]}, Author: k},
+			{Kind: "comment", Text: "a comment", Author: k + 1},
+		}); err != nil {
+			return fail(err)
+		}
+	}
+	for k, id := range r1Bugs {
+		if rng.Intn(2) == 0 {
+			if err := w.Edit(r1, id, []world.OpSpec{{Kind: "labels", Add: []string{labels[(k+6)%len(labels)]}, Author: k}}); err != nil {
+				return fail(err)
+			}
+		}
+	}
+	// exchange: r0 -> origin -> r1 (works on the big bug with its own authors) -> origin -> r0
+	if err := r0.Push("origin"); err != nil {
+		return fail(err)
+	}
+	if ml := r1.Pull("origin"); ml.Err != nil {
+		return fail(ml.Err)
+	}
+	specs = nil
+	for i := 0; i < nAuthors; i++ {
+		specs = append(specs, world.OpSpec{Kind: "comment", Text: fmt.Sprintf("r1 comment %d", i), Author: i})
+	}
+	specs = append(specs, world.OpSpec{Kind: "open", Author: 1}, world.OpSpec{Kind: "labels", Add: []string{"from-r1"}, Remove: []string{"alpha"}, Author: 2})
+	if err := w.Edit(r1, big, specs); err != nil {
+		return fail(err)
+	}
+	// concurrent edit of the same bug on r0 (forces a merge commit)
+	if err := w.Edit(r0, big, []world.OpSpec{{Kind: "comment", Text: "concurrent r0 comment", Author: 1}}); err != nil {
+		return fail(err)
+	}
+	if err := r1.Push("origin"); err != nil {
+		return fail(err)
+	}
+	ml := r0.Pull("origin")
+	if ml.Err != nil {
+		return fail(ml.Err)
+	}
+	for _, res := range append(append([]entity.MergeResult{}, ml.Identities...), ml.Bugs...) {
+		if res.Err != nil {
+			return fail(fmt.Errorf("merge of %s: %w", res.Id, res.Err))
+		}
+	}
+	return w, big, small, nil
+}
+
+// c20EndToEnd walks the paginated GraphQL fields of a served repository.
+var c20EndToEnd = func(r *mon.Run) {
+	defer func() {
+		if p := recover(); p != nil {
+			r.Violation("e2e-crash", fmt.Sprintf("panic during the end-to-end walks: %v", p), nil)
+		}
+	}()
+	w, big, small, err := c20BuildWorld(r)
+	if err != nil {
+		r.Inconclusive("e2e: cannot build the two-replica world: " + err.Error())
+		return
+	}
+	defer w.Close()
+	r0 := w.Replicas[0]
+	h, err := NewGQLHarness(r0, r0.Authors[0].Id())
+	if err != nil {
+		r.Inconclusive("e2e: cannot serve the repository: " + err.Error())
+		return
+	}
+	defer h.Close()
+
+	fields := []e2eField{
+		{Key: "allBugs", Schema: "Repository.allBugs", Field: "allBugs", NodeKey: "id"},
+		{Key: "allIdentities", Schema: "Repository.allIdentities", Field: "allIdentities", NodeKey: "id"},
+		{Key: "validLabels", Schema: "Repository.validLabels", Field: "validLabels", NodeKey: "name"},
+	}
+	for _, bf := range []string{"comments", "timeline", "operations", "actors", "participants"} {
+		fields = append(fields, e2eField{Key: "bug." + bf, Schema: "Bug." + bf, Field: bf, BugId: big.String(), NodeKey: "id"})
+	}
+	// a second, short bug: lists of length 1..2
+	for _, bf := range []string{"comments", "timeline", "operations"} {
+		fields = append(fields, e2eField{Key: "bug." + bf, Schema: "Bug." + bf, Field: bf, BugId: small.String(), NodeKey: "id"})
+	}
+
+	// which paginated fields does the served schema have? (newly added ones are listed as not walked)
+	modelled := map[string]bool{}
+	for _, f := range fields {
+		modelled[f.Schema] = true
+	}
+	if schema, err := h.Introspect(false); err != nil {
+		r.Inconclusive("e2e: " + err.Error())
+	} else {
+		served := map[string]bool{}
+		for _, pf := range schema.PaginatedFields() {
+			name := pf.Owner + "." + pf.Field.Name
+			served[name] = true
+			r.Seen("e2e_paginated_fields_in_schema", name)
+			if !modelled[name] {
+				r.Seen("e2e_unwalked_paginated_fields", name)
+			}
+		}
+		var kept []e2eField
+		for _, f := range fields {
+			if served[f.Schema] {
+				kept = append(kept, f)
+			} else {
+				r.Seen("e2e_fields_absent_from_schema", f.Schema)
+			}
+		}
+		fields = kept
+	}
+
+	// Lamport ties among the served bugs (evidence that the two-replica feed did its job)
+	{
+		byKey := map[string]int{}
+		byLamport := map[uint64]int{}
+		for _, id := range h.RC.Bugs().AllIds() {
+			ex, err := h.RC.Bugs().ResolveExcerpt(id)
+			if err != nil {
+				continue
+			}
+			byLamport[uint64(ex.CreateLamportTime)]++
+			byKey[fmt.Sprintf("%d/%d", ex.CreateLamportTime, ex.CreateUnixTime)]++
+		}
+		for _, n := range byLamport {
+			if n > 1 {
+				r.Count("e2e_bugs_sharing_create_lamport", n)
+			}
+		}
+		for _, n := range byKey {
+			if n > 1 {
+				r.Count("e2e_bugs_sharing_lamport_and_unix", n)
+			}
+		}
+	}
+
+	repeats := r.Pick(3, 3)
+	for _, f := range fields {
+		ref0, msg := e2eFetch(h, f, "")
+		if msg != "" {
+			r.Violation("e2e-listing:"+f.Key, "unpaginated request: "+msg, map[string]any{"field": f.Key, "document": f.document("")})
+			continue
+		}
+		n := len(ref0.Nodes)
+		r.Seen("e2e_fields", f.Key)
+		r.Seen("e2e_list_lengths", fmt.Sprintf("%s=%d", f.Key, n))
+		if !sameStrings(ref0.Nodes, ref0.EdgeNodes) || ref0.Total != n {
+			r.Violation("e2e-page:"+f.Key+":unpaginated", fmt.Sprintf("unpaginated request: %d nodes, %d edges, totalCount %d", n, len(ref0.EdgeNodes), ref0.Total), map[string]any{"field": f.Key})
+		}
+		// set of ids against the cache
+		if f.Key == "allBugs" || f.Key == "allIdentities" {
+			var ids []entity.Id
+			if f.Key == "allBugs" {
+				ids = h.RC.Bugs().AllIds()
+			} else {
+				ids = h.RC.Identities().AllIds()
+			}
+			want := make([]string, len(ids))
+			for i, id := range ids {
+				want[i] = id.String()
+			}
+			if !reflect.DeepEqual(sortedCopy(want), sortedCopy(ref0.Nodes)) {
+				r.Violation("e2e-set:"+f.Key, fmt.Sprintf("unpaginated %s returns %v, the cache lists %v", f.Key, shortIds(sortedCopy(ref0.Nodes)), shortIds(sortedCopy(want))), map[string]any{"field": f.Key})
+			}
+			r.Count("e2e_set_checks", 1)
+		}
+		// page sizes
+		sizeSet := map[int]bool{}
+		if r.Thorough() {
+			for k := 1; k <= n+1; k++ {
+				sizeSet[k] = true
+			}
+		} else {
+			for _, k := range []int{1, 2, 3, n - 1, n, n + 1} {
+				if k >= 1 {
+					sizeSet[k] = true
+				}
+			}
+		}
+		var sizes []int
+		for k := range sizeSet {
+			sizes = append(sizes, k)
+		}
+		sort.Ints(sizes)
+		// Is there a list order at all? Ask for the unpaginated list several times.
+		listings := 1
+		probes := r.Pick(8, 16)
+		fieldUnstable := false
+		observed := [][]string{ref0.Nodes}
+		for i := 0; i < probes; i++ {
+			p, msg := e2eFetch(h, f, "")
+			listings++
+			if msg != "" {
+				continue
+			}
+			if !sameStrings(p.Nodes, ref0.Nodes) {
+				fieldUnstable = true
+				observed = append(observed, p.Nodes)
+			}
+		}
+		unstable := 0
+		for rep := 0; rep < repeats; rep++ {
+			for _, size := range sizes {
+				for _, forward := range []bool{true, false} {
+					dir := "backward"
+					if forward {
+						dir = "forward"
+					}
+					before, msg := e2eFetch(h, f, "")
+					if msg != "" {
+						r.Violation("e2e-listing:"+f.Key, "unpaginated request: "+msg, map[string]any{"field": f.Key})
+						continue
+					}
+					got, pages, pageDefect, fatal := e2eWalk(h, f, size, forward, len(before.Nodes))
+					after, _ := e2eFetch(h, f, "")
+					listings += 2
+					changed := !sameStrings(before.Nodes, ref0.Nodes) || (after != nil && !sameStrings(before.Nodes, after.Nodes))
+					if changed {
+						unstable++
+						fieldUnstable = true
+						observed = append(observed, before.Nodes)
+						if after != nil {
+							observed = append(observed, after.Nodes)
+						}
+					}
+					r.Case(fmt.Sprintf("e2e/%s/%s/n=%d/k=%d", f.Key, dir, n, size), n > size)
+					r.Count("e2e_walks", 1)
+					r.Count("e2e_pages", pages)
+					r.Seen("e2e_page_sizes", strconv.Itoa(size))
+					firstArg := "last: "
+					if forward {
+						firstArg = "first: "
+					}
+					rc := map[string]any{"field": f.Key, "bug": f.BugId, "page_size": size, "direction": dir, "document_first_page": f.document(firstArg + strconv.Itoa(size))}
+					if fatal != "" {
+						r.Violation("e2e-walk:"+f.Key+":"+dir, fmt.Sprintf("%s, page size %d, %s: %s", f.Key, size, dir, fatal), rc)
+						continue
+					}
+					if pageDefect != "" {
+						parts := strings.SplitN(pageDefect, "|", 2)
+						// totalCount / window defects are only meaningful on a list that did not change under the walk
+						if !fieldUnstable || parts[0] == "nodes-vs-edges" || parts[0] == "cursors" {
+							r.Violation("e2e-page:"+f.Key+":"+parts[0], fmt.Sprintf("%s, page size %d, %s: %s", f.Key, size, dir, parts[1]), rc)
+						}
+					}
+					if !fieldUnstable {
+						// a list order exists: the walk must reproduce it exactly
+						if !sameStrings(got, before.Nodes) {
+							r.Violation("e2e-walk:"+f.Key+":"+dir,
+								fmt.Sprintf("%s (%d elements), page size %d, %s walk of %d separate requests: %s\n   list: %v\n   walk: %v",
+									f.Key, len(before.Nodes), size, dir, pages, describeWalkDiff(got, before.Nodes), shortIds(before.Nodes), shortIds(got)), rc)
+						}
+						continue
+					}
+					// The unpaginated listing changes between identical requests, so there is no list order to
+					// compare with; what remains of the statement is "every element exactly once".
+					if !sameStrings(sortedCopy(got), sortedCopy(before.Nodes)) {
+						key := "e2e-walk:" + f.Key + ":" + dir + ":unstable-order"
+						note := "the unpaginated listing itself changes order between identical requests, so pages computed by separate requests do not fit together"
+						if f.Key == "allBugs" && e2eOnlyTiesMove(h, observed) {
+							key += "-among-equal-sort-keys"
+							note = "bugs with equal (create Lamport time, create unix time) change their relative order between identical requests, so pages computed by separate requests do not fit together"
+						}
+						r.Violation(key,
+							fmt.Sprintf("%s (%d elements), page size %d, %s walk of %d separate requests: %s [%s]\n   list: %v\n   walk: %v",
+								f.Key, len(before.Nodes), size, dir, pages, describeWalkDiff(got, before.Nodes), note, shortIds(before.Nodes), shortIds(got)), rc)
+					}
+				}
+			}
+		}
+		if fieldUnstable {
+			r.Seen("e2e_fields_without_stable_order", f.Key)
+			r.Count("e2e_distinct_orders_seen/"+f.Key, e2eDistinctOrders(observed))
+		}
+		if unstable > 0 {
+			r.Count("e2e_unstable_listing_observations/"+f.Key, unstable)
+		}
+		r.Count("e2e_unpaginated_listings", listings)
+	}
+	r.Count("e2e_http_requests", int(h.Requests))
+}
+
+func e2eDistinctOrders(observed [][]string) int {
+	set := map[string]bool{}
+	for _, o := range observed {
+		set[strings.Join(o, ",")] = true
+	}
+	return len(set)
+}
+
+// e2eOnlyTiesMove says whether all observed listings of allBugs agree once every bug is replaced by its
+// sort key (create Lamport time, create unix time), i.e. only bugs with equal keys trade places.
+func e2eOnlyTiesMove(h *GQLHarness, observed [][]string) bool {
+	keyOf := func(id string) string {
+		ex, err := h.RC.Bugs().ResolveExcerpt(entity.Id(id))
+		if err != nil {
+			return "?" + id
+		}
+		return fmt.Sprintf("%d/%d", ex.CreateLamportTime, ex.CreateUnixTime)
+	}
+	var first []string
+	for i, o := range observed {
+		keys := make([]string, len(o))
+		for j, id := range o {
+			keys[j] = keyOf(id)
+		}
+		if i == 0 {
+			first = keys
+		} else if !sameStrings(first, keys) {
+			return false
+		}
+	}
+	return true
+}
